@@ -316,6 +316,11 @@ func runWorkloadIn(in wlInput, scratch []byte) (out []byte) {
 			t.add("tok", tt.String(), b)
 			if tt == css.ErrorToken {
 				t.add("err", l.Err())
+				for k := 0; k < 2; k++ {
+					call()
+					t2, b2 := l.Next()
+					t.add("after-error", t2.String(), b2, l.Err())
+				}
 				break
 			}
 		}
@@ -330,6 +335,11 @@ func runWorkloadIn(in wlInput, scratch []byte) (out []byte) {
 			}
 			if gt == css.ErrorGrammar {
 				t.add("err", p.Err())
+				for k := 0; k < 2; k++ {
+					call()
+					g2, t2, b2 := p.Next()
+					t.add("after-error", g2.String(), t2.String(), b2, p.Err())
+				}
 				break
 			}
 		}
@@ -351,6 +361,11 @@ func runWorkloadIn(in wlInput, scratch []byte) (out []byte) {
 			t.add("tok", tt.String(), b, l.Text(), l.AttrKey(), l.AttrVal(), l.HasTemplate())
 			if tt == html.ErrorToken {
 				t.add("err", l.Err())
+				for k := 0; k < 2; k++ {
+					call()
+					t2, b2 := l.Next()
+					t.add("after-error", t2.String(), b2, l.Err())
+				}
 				break
 			}
 		}
@@ -362,6 +377,11 @@ func runWorkloadIn(in wlInput, scratch []byte) (out []byte) {
 			t.add("tok", tt.String(), b, l.Text(), l.AttrVal())
 			if tt == xml.ErrorToken {
 				t.add("err", l.Err())
+				for k := 0; k < 2; k++ {
+					call()
+					t2, b2 := l.Next()
+					t.add("after-error", t2.String(), b2, l.Err())
+				}
 				break
 			}
 		}
@@ -373,6 +393,11 @@ func runWorkloadIn(in wlInput, scratch []byte) (out []byte) {
 			t.add("gram", gt.String(), b, p.State().String())
 			if gt == json.ErrorGrammar {
 				t.add("err", p.Err())
+				for k := 0; k < 2; k++ {
+					call()
+					g2, b2 := p.Next()
+					t.add("after-error", g2.String(), b2, p.State().String(), p.Err())
+				}
 				break
 			}
 		}
@@ -389,6 +414,11 @@ func runWorkloadIn(in wlInput, scratch []byte) (out []byte) {
 			}
 			if tt == js.ErrorToken {
 				t.add("err", l.Err())
+				for k := 0; k < 2; k++ {
+					call()
+					t2, b2 := l.Next()
+					t.add("after-error", t2.String(), b2, l.Err())
+				}
 				break
 			}
 		}
